@@ -251,6 +251,56 @@ def check_writer_file(doc, obs):
                    'want': want_h[k] if k < len(want_h) else None})
 
 
+def tokens_thunk_for(lx):
+    def make(text):
+        def thunk():
+            return [[i, str(t), v] for i, t, v in
+                    lx.get_tokens_unprocessed(text)]
+        return thunk
+    return make
+
+
+def check_shared_lexer(texts_, obs, rng):
+    """One lexer object, several texts at once: token streams consumed
+    round-robin in one thread, then in threads under the seeded scheduler.
+    Each must equal what a fresh lexer yields for that text alone."""
+    solo = [[[i, str(t), v] for i, t, v in
+             lexer().get_tokens_unprocessed(x)] for x in texts_]
+    lx = lexer()
+    gens = [lx.get_tokens_unprocessed(x) for x in texts_]
+    got = [[] for _ in texts_]
+    live = list(range(len(texts_)))
+    case = {'shared_lexer': list(texts_)}
+    obs.case(('shared', texts_), nontrivial=any('#' in x for x in texts_))
+    obs.count('shared_lexer_groups')
+    try:
+        with Watchdog(30):
+            while live:
+                for i in list(live):
+                    try:
+                        a, t, v = next(gens[i])
+                        got[i].append([a, str(t), v])
+                    except StopIteration:
+                        live.remove(i)
+    except CaseTimeout:
+        obs.inconclusive_because('tokenising exceeded the 30 s watchdog')
+        return
+    except Exception as e:
+        obs.violation('interleaved:lexer_raised:%s' % type(e).__name__, case,
+                      repr(e)[:200])
+        return
+    if got != solo:
+        k = next(i for i in range(len(solo)) if got[i] != solo[i])
+        j = next((j for j in range(min(len(got[k]), len(solo[k])))
+                  if got[k][j] != solo[k][j]), None)
+        obs.violation('interleaved:token_streams_of_one_lexer_interfere',
+                      case, {'text_index': k, 'first_difference': j})
+        return
+    lx2 = lexer()
+    common.check_concurrent(obs, rng, list(texts_), tokens_thunk_for(lx2),
+                            'lexer')
+
+
 def run(ctx):
     obs = ctx.obs
     rng = ctx.rng
@@ -267,9 +317,25 @@ def run(ctx):
             obs.sample({'text': t[:300]})
     for k in range(ctx.share(ctx.pick(4000, 100000))):
         check_writer_file(benign_doc(rng), obs)
+    for k in range(ctx.share(ctx.pick(200, 5000))):
+        group = []
+        for _ in range(rng.randint(2, 3)):
+            if rng.random() < 0.5:
+                try:
+                    group.append(serialize(benign_doc(rng))[0].decode('utf-8'))
+                    continue
+                except Exception:
+                    pass
+            group.append(rand_text(rng))
+        check_shared_lexer(group, obs, rng)
 
 
 def replay(case, obs):
+    import random
+    if 'shared_lexer' in case:
+        return check_shared_lexer(case['shared_lexer'], obs, random.Random(0))
+    if 'concurrent' in case:
+        return common.replay_concurrent(case, obs, tokens_thunk_for(lexer()))
     if 'recipe' in case:
         check_writer_file(case['recipe'], obs)
     else:
